@@ -18,6 +18,7 @@ import (
 	"encoding/json"
 	"fmt"
 	"math"
+	"strconv"
 	"strings"
 
 	"github.com/martian-lang/martian/martian/core"
@@ -253,4 +254,94 @@ func c16CanonTopOrdered(raw []byte) (string, error) {
 	}
 	sb.WriteString("}")
 	return sb.String(), nil
+}
+
+// c16CanonOrdered: token encoding of JSON text with members in SOURCE order and duplicates kept, at
+// every depth (what lean/Martian/InvocationJson.lean `treeOfBytes` yields); numbers: integer syntax
+// -> exact integer, otherwise the float64 strconv.ParseFloat gives (the sign of a zero dropped: the
+// model's numerals have none).
+func c16CanonOrdered(raw []byte) (string, error) {
+	dec := json.NewDecoder(bytes.NewReader(raw))
+	dec.UseNumber()
+	var sb strings.Builder
+	if err := c16CanonOrderedVal(dec, &sb); err != nil {
+		return "", err
+	}
+	if _, err := dec.Token(); err == nil {
+		return "", fmt.Errorf("trailing data")
+	}
+	return strings.TrimSpace(sb.String()), nil
+}
+
+func c16CanonOrderedVal(dec *json.Decoder, sb *strings.Builder) error {
+	tok, err := dec.Token()
+	if err != nil {
+		return err
+	}
+	switch t := tok.(type) {
+	case json.Delim:
+		switch t {
+		case '[':
+			sb.WriteString("[ ")
+			for dec.More() {
+				if err := c16CanonOrderedVal(dec, sb); err != nil {
+					return err
+				}
+			}
+			if _, err := dec.Token(); err != nil {
+				return err
+			}
+			sb.WriteString("] ")
+		case '{':
+			sb.WriteString("{ ")
+			for dec.More() {
+				kt, err := dec.Token()
+				if err != nil {
+					return err
+				}
+				sb.WriteString("k" + hx(kt.(string)) + " ")
+				if err := c16CanonOrderedVal(dec, sb); err != nil {
+					return err
+				}
+			}
+			if _, err := dec.Token(); err != nil {
+				return err
+			}
+			sb.WriteString("} ")
+		}
+	case json.Number:
+		s := string(t)
+		if !strings.ContainsAny(s, ".eE") {
+			c16Canon(t, false, sb)
+			return nil
+		}
+		f, err := strconv.ParseFloat(s, 64)
+		if err != nil {
+			return fmt.Errorf("out of range")
+		}
+		if f == 0 {
+			f = 0 // drop the sign
+		}
+		sb.WriteString(c16FltTok(f) + " ")
+	default:
+		c16Canon(tok, false, sb)
+	}
+	return nil
+}
+
+// jsonTree: the bytes of an argument -> tree, model (grammar + rounding) vs encoding/json + strconv
+func (x *c16Runner) jsonTree(k *c16Case, id string, raw []byte) {
+	want := "none"
+	if t, err := c16CanonOrdered(raw); err == nil {
+		want = "some " + t
+	}
+	x.ask([]string{"C16.jsontree", hx(string(raw))}, func(rep string) {
+		x.r.hist("jsontree")
+		if rep != want {
+			x.r.violate(Violation{Kind: "correspondence", Key: k.key("jsontree"),
+				What:  "the tree of an argument's bytes differs between the model (JsonBytes.parseTop + Num.round64) and encoding/json + strconv.ParseFloat",
+				Input: map[string]interface{}{"param": id, "json": string(raw)}, Impl: want, Model: rep,
+				Broken: "correspondence C16.jsontree (InvocationJson.treeOfBytes)"})
+		}
+	})
 }
